@@ -128,6 +128,10 @@ impl Session {
 pub struct Turns {
     turn: Mutex<u64>,
     cv: Condvar,
+    /// How long a scripted element waits for its turn before it is emitted anyway (job `gate_timeout_ms`).
+    pub timeout_ms: std::sync::atomic::AtomicU64,
+    /// Number of waits that ran into the timeout: the prescribed order was not enforced.
+    pub timeouts: std::sync::atomic::AtomicU64,
 }
 
 impl Turns {
